@@ -2094,7 +2094,7 @@ def m_panic(ex, c, args):
     raise Panic(msg, "/".join(ex.callstack[-2:]))
 
 
-@model("process::exit")
+@model("process::exit", "exit")
 def m_exit(ex, c, args):
     raise Halt(args[0])
 
